@@ -448,7 +448,12 @@ class Element:
                 mask = None
                 continue
             parts.append(_path_segment(element))
-        return "/" + "/".join(parts)
+        path = "/" + "/".join(parts)
+        if parts and parts[-1] == "":
+            # a single trailing slash is not a step: the empty last step of
+            # an unnamed element needs a slash of its own
+            path += "/"
+        return path
 
     def find(self, path, single=False, strict=True):
         """Find child elements by string path.
@@ -813,6 +818,10 @@ def _path_segment(element):
             if child is element:
                 return str(idx)
     name = element.name
+    if name is None:
+        # an unnamed child of a mapping is stored under None, which is what
+        # an empty path step looks up
+        return ""
     if name in (".", ".."):
         return name.replace(".", "\\.")
     escaped = name.replace("/", "\\/").replace("[", "\\[")
